@@ -141,7 +141,7 @@ package updog
 //@ pred IdxInv(idx *Index) := idx != nil && SchemaOK(idx.schema) && idx.metrics != nil && idx.values != nil && CacheValid(idx.cache)
 //@   && (forall c string, v string :: (c in idx.schema.Columns) && (v in idx.schema.Columns[c].Values) ==> (idx.schema.Columns[c].Values[v] in idx.values.has))
 
-//@ ghost field colGetter.has (Array Int Bool)
+//@ ghost field colGetter.has iset
 //@ interface colGetter.GetCol(g, key) (bm, err)
 //@   requires g != nil
 //@   ensures err == nil && (key in g.has) ==> bm != nil
@@ -223,11 +223,30 @@ package updog
 //@      && (arr(gbs[j].Values) == nil || (!(arr(gbs[j].Values) in old($alloc)) && allocated(arr(gbs[j].Values))))
 //@      && ValuesOK(gbs[j].Values, sch.Columns[columns[j]]))
 
-//@ func [C02,C08,C14,C04] (*Query).groupBy(q, gbf, result, idx) (final)
+//@ pred RGsOK(rgs []resultGroup, level int) := (arr(rgs) == nil || (!(arr(rgs) in old($alloc)) && allocated(arr(rgs))))
+//@   && (forall r idx(rgs) :: rgs[r].result != nil && len(rgs[r].fields) == level
+//@        && (arr(rgs[r].fields) == nil || (!(arr(rgs[r].fields) in old($alloc)) && allocated(arr(rgs[r].fields)))))
+
+//@ func [C02,C08,C14,C04] (*Query).groupBy(q, groupByFields, result, idx) (finalResult)
 //@   requires IdxInv(idx) && result != nil
-//@   requires forall j idx(gbf) :: forall a idx(gbf[j].Values) :: (gbf[j].Values[a].Idx in idx.values.has)
-//@   ensures [C02] empty_list_no_groups: len(gbf) == 0 ==> len(final) == 0
-//@   ensures [C02] shape: forall g idx(final) :: len(final[g].Fields) == len(gbf) && final[g].Count > 0
+//@   requires forall j idx(groupByFields) :: forall a idx(groupByFields[j].Values) :: (groupByFields[j].Values[a].Idx in idx.values.has)
+//@   ensures [C02] empty_list_no_groups: len(groupByFields) == 0 ==> len(finalResult) == 0
+//@   ensures [C02] shape: forall g idx(finalResult) :: len(finalResult[g].Fields) == len(groupByFields)
+//@   loop 1
+//@     invariant 0 <= $i && RGsOK(resultGroups, $i)
+//@   loop 2
+//@     invariant 0 <= $i && RGsOK(resultGroups, $i1) && RGsOK(newResultGroups, $i1 + 1)
+//@     invariant arr(newResultGroups) == nil || arr(newResultGroups) != arr(resultGroups)
+//@     invariant forall a idx(gbf.Values) :: (gbf.Values[a].Idx in idx.values.has)
+//@   loop 3
+//@     invariant 0 <= $i && RGsOK(resultGroups, $i1) && RGsOK(newResultGroups, $i1 + 1)
+//@     invariant arr(newResultGroups) == nil || arr(newResultGroups) != arr(resultGroups)
+//@     invariant forall a idx(gbf.Values) :: (gbf.Values[a].Idx in idx.values.has)
+//@     invariant rg.result != nil && len(rg.fields) == $i1
+//@   loop 4
+//@     invariant 0 <= $i && RGsOK(resultGroups, len(groupByFields))
+//@     invariant arr(finalResult) == nil || (!(arr(finalResult) in old($alloc)) && allocated(arr(finalResult)))
+//@     invariant forall g idx(finalResult) :: len(finalResult[g].Fields) == len(groupByFields)
 
 //@ func [C08,C14,C04,C01,C02] (*Index).Execute(idx, q) (result, err)
 //@   requires IdxInv(idx) && q != nil && idx.mtx.held == 0
